@@ -4,6 +4,9 @@ import (
 	"encoding/json"
 	"fmt"
 	"math/rand"
+	"sync"
+	"sync/atomic"
+	"time"
 
 	"tags.cncf.io/container-device-interface/pkg/cdi"
 	specs "tags.cncf.io/container-device-interface/specs-go"
@@ -43,6 +46,10 @@ func baseSpec(nDev int) *specs.Spec {
 	return s
 }
 
+// featVariant selects the value a feature is used with: 0 = the plain representative, 1..3 = unusual values of
+// the same feature (zero ids, an all-default block, odd spellings) - "uses the feature" must not depend on the value
+var featVariant = 0
+
 func placeFeature(s *specs.Spec, f int, where int) {
 	var e *specs.ContainerEdits
 	if where < 0 {
@@ -52,22 +59,23 @@ func placeFeature(s *specs.Spec, f int, where int) {
 	}
 	switch f {
 	case fMountType:
-		e.Mounts = append(e.Mounts, &specs.Mount{HostPath: "/h", ContainerPath: "/c", Type: "bind"})
+		e.Mounts = append(e.Mounts, &specs.Mount{HostPath: "/h", ContainerPath: "/c", Type: []string{"bind", "tmpfs", " ", "0"}[featVariant]})
 	case fHostPath:
-		e.DeviceNodes = append(e.DeviceNodes, &specs.DeviceNode{Path: "/dev/x", HostPath: "/dev/y"})
+		e.DeviceNodes = append(e.DeviceNodes, &specs.DeviceNode{Path: "/dev/x", HostPath: []string{"/dev/y", "/dev/x", " ", "x"}[featVariant]})
 	case fRdt:
-		e.IntelRdt = &specs.IntelRdt{ClosID: "c"}
+		e.IntelRdt = []*specs.IntelRdt{{ClosID: "c"}, {}, {EnableCMT: true}, {L3CacheSchema: "L3:0=f", MemBwSchema: "MB:0=1"}}[featVariant]
 	case fGids:
-		e.AdditionalGIDs = append(e.AdditionalGIDs, 5)
+		e.AdditionalGIDs = append(e.AdditionalGIDs, [][]uint32{{5}, {0}, {0, 0}, {0, 4294967295}}[featVariant]...)
 	case fAnnotations:
+		ann := []map[string]string{{"k": "v"}, {"": ""}, {"a/b": ""}, {"k": "v", "l": "w"}}[featVariant]
 		if where < 0 {
-			s.Annotations = map[string]string{"k": "v"}
+			s.Annotations = ann
 		} else {
-			s.Devices[where].Annotations = map[string]string{"k": "v"}
+			s.Devices[where].Annotations = ann
 		}
 	case fDigitName:
 		if where >= 0 {
-			s.Devices[where].Name = "0" + s.Devices[where].Name
+			s.Devices[where].Name = []string{"0" + s.Devices[where].Name, "9", "5-x", "00"}[featVariant] + []string{"", string(rune('a' + where)), "", string(rune('a' + where))}[featVariant]
 		}
 	case fDottedClass:
 		s.Kind = "vendor.com/cl.ass"
@@ -118,6 +126,29 @@ func (versionStream) Generate(rng *rand.Rand, tier string, emit func(Case)) {
 				emitSpec(s2, false)
 			}
 		}
+	}
+	// every feature with unusual values of the same feature, at every placement of a two-device Spec
+	for v := 1; v <= 3; v++ {
+		featVariant = v
+		for f := 0; f < nFeatures; f++ {
+			for where := -1; where < 2; where++ {
+				if (f == fDigitName && where < 0) || (f == fDottedClass && where >= 0) {
+					continue
+				}
+				s := baseSpec(2)
+				placeFeature(s, f, where)
+				emitSpec(s, true)
+			}
+		}
+	}
+	featVariant = 0
+	// the same Specs blown up to thousands of devices and evaluated by many goroutines at once (three cases)
+	for _, fw := range [][2]int{{fMountType, 1}, {fHostPath, -1}, {-1, 0}} {
+		s := baseSpec(3)
+		if fw[0] >= 0 {
+			placeFeature(s, fw[0], fw[1])
+		}
+		emit(Case{"op": "minver", "spec": specToProto(s), "stress": true})
 	}
 	// boundary sweep of the one character-class rule in the version logic: every first byte of a
 	// device name, at every device position, alone and declared as each old version
@@ -282,8 +313,118 @@ func (versionStream) Execute(c Case) {
 				break
 			}
 		}
+		// evaluated next to evaluations of other Specs on other goroutines, the answer must be the same (the
+		// function is documented as a pure function of its argument)
+		if st, _ := c["stress"].(bool); st && stressDiffers(s, v) {
+			aux = append(aux, fmt.Sprintf("MinimumRequiredVersion of a Spec with many devices answers differently while 32 goroutines evaluate other large Specs (sequentially: %q)", v))
+		}
+		if concurrentDiffers(s, v) {
+			aux = append(aux, fmt.Sprintf("MinimumRequiredVersion answers differently while other Specs are being evaluated concurrently (sequentially: %q)", v))
+		}
 		obs["aux"] = aux
 	case "validver":
 		obs["ok"] = specs.ValidateVersion(s) == nil
 	}
+}
+
+
+var concCount int
+
+// concurrentDiffers evaluates s (expected answer v) on 4 goroutines while 4 others evaluate Specs with other
+// feature sets; true if any evaluation of s disagrees with v. Sampled: every 64th case, 200 rounds each.
+func concurrentDiffers(s *specs.Spec, v string) bool {
+	concCount++
+	if concCount%64 != 0 {
+		return false
+	}
+	others := []*specs.Spec{baseSpec(3), baseSpec(3), baseSpec(3)}
+	placeFeature(others[0], fMountType, 1)
+	placeFeature(others[1], fHostPath, -1)
+	placeFeature(others[2], fGids, 2)
+	for _, o := range others { // many devices: a longer evaluation, a wider window
+		for len(o.Devices) < 400 {
+			o.Devices = append(o.Devices, o.Devices[len(o.Devices)%3])
+		}
+	}
+	var wg sync.WaitGroup
+	var differs atomic.Bool
+	stop := make(chan struct{})
+	for g := 0; g < 4; g++ {
+		wg.Add(1)
+		go func(g int) {
+			defer wg.Done()
+			defer func() { _ = recover() }()
+			for {
+				select {
+				case <-stop:
+					return
+				default:
+					_, _ = specs.MinimumRequiredVersion(others[g%3])
+				}
+			}
+		}(g)
+	}
+	var wg2 sync.WaitGroup
+	for g := 0; g < 4; g++ {
+		wg2.Add(1)
+		go func() {
+			defer wg2.Done()
+			defer func() { _ = recover() }()
+			for i := 0; i < 200; i++ {
+				if w, _ := specs.MinimumRequiredVersion(s); w != v {
+					differs.Store(true)
+				}
+				if (specs.ValidateVersion(s) == nil) != (specs.ValidateVersion(s) == nil) {
+					differs.Store(true)
+				}
+			}
+		}()
+	}
+	wg2.Wait()
+	close(stop)
+	wg.Wait()
+	return differs.Load()
+}
+
+
+// stressDiffers: s and two Specs with other feature sets, each blown up to 20000 devices (same feature set, so the
+// same answer), evaluated by 32 goroutines for 400 ms; true if an evaluation of a copy of s disagrees with v.
+func stressDiffers(s *specs.Spec, v string) bool {
+	blow := func(o *specs.Spec) *specs.Spec {
+		b := *o
+		b.Devices = append([]specs.Device{}, o.Devices...)
+		for n := len(o.Devices); n > 0 && len(b.Devices) < 20000; {
+			b.Devices = append(b.Devices, o.Devices[len(b.Devices)%n])
+		}
+		return &b
+	}
+	o1, o2 := baseSpec(3), baseSpec(3)
+	placeFeature(o1, fMountType, 2)
+	placeFeature(o1, fHostPath, 0)
+	placeFeature(o2, fGids, -1)
+	all := []*specs.Spec{blow(s), blow(o1), blow(o2)}
+	want := []string{v, "", ""}
+	want[1], _ = specs.MinimumRequiredVersion(all[1])
+	want[2], _ = specs.MinimumRequiredVersion(all[2])
+	var differs atomic.Bool
+	var wg sync.WaitGroup
+	deadline := time.Now().Add(400 * time.Millisecond)
+	for g := 0; g < 32; g++ {
+		wg.Add(1)
+		go func(g int) {
+			defer wg.Done()
+			defer func() {
+				if recover() != nil {
+					differs.Store(true)
+				}
+			}()
+			for i := g; time.Now().Before(deadline) && !differs.Load(); i++ {
+				if w, _ := specs.MinimumRequiredVersion(all[i%3]); w != want[i%3] {
+					differs.Store(true)
+				}
+			}
+		}(g)
+	}
+	wg.Wait()
+	return differs.Load()
 }
